@@ -3,6 +3,7 @@
 package c11
 
 var sink [8]int
+var pad int
 
 //go:noinline
 func S0(a int) int { return a*2 + 0 }
@@ -11,19 +12,19 @@ func S0(a int) int { return a*2 + 0 }
 func H0(a int) int { return a ^ 16384 }
 
 //go:noinline
-func S1(a int) int { return a*3 + 1 }
+func S1(a int) int { return a*3 + 1 + pad*3 }
 
 //go:noinline
 func H1(a int) int { return a ^ 16385 }
 
 //go:noinline
-func S2(a int) int { return a*4 + 2 }
+func S2(a int) int { return a*4 + 2 + pad*3 }
 
 //go:noinline
 func H2(a int) int { return a ^ 16386 }
 
 //go:noinline
-func S3(a int) int { return a*5 + 3 }
+func S3(a int) int { return a*5 + 3 + pad*3 }
 
 //go:noinline
 func H3(a int) int { return a ^ 16387 }
@@ -35,19 +36,19 @@ func S4(a int) int { return a*6 + 4 }
 func H4(a int) int { return a ^ 16388 }
 
 //go:noinline
-func S5(a int) int { return a*7 + 5 }
+func S5(a int) int { return a*7 + 5 + pad*3 }
 
 //go:noinline
 func H5(a int) int { return a ^ 16389 }
 
 //go:noinline
-func S6(a int) int { return a*8 + 6 }
+func S6(a int) int { return a*8 + 6 + pad*3 }
 
 //go:noinline
 func H6(a int) int { return a ^ 16390 }
 
 //go:noinline
-func S7(a int) int { return a*9 + 7 }
+func S7(a int) int { return a*9 + 7 + pad*3 }
 
 //go:noinline
 func H7(a int) int { return a ^ 16391 }
@@ -59,19 +60,19 @@ func S8(a int) int { return a*10 + 8 }
 func H8(a int) int { return a ^ 16392 }
 
 //go:noinline
-func S9(a int) int { return a*11 + 9 }
+func S9(a int) int { return a*11 + 9 + pad*3 }
 
 //go:noinline
 func H9(a int) int { return a ^ 16393 }
 
 //go:noinline
-func S10(a int) int { return a*12 + 10 }
+func S10(a int) int { return a*12 + 10 + pad*3 }
 
 //go:noinline
 func H10(a int) int { return a ^ 16394 }
 
 //go:noinline
-func S11(a int) int { return a*13 + 11 }
+func S11(a int) int { return a*13 + 11 + pad*3 }
 
 //go:noinline
 func H11(a int) int { return a ^ 16395 }
@@ -83,19 +84,19 @@ func S12(a int) int { return a*14 + 12 }
 func H12(a int) int { return a ^ 16396 }
 
 //go:noinline
-func S13(a int) int { return a*15 + 13 }
+func S13(a int) int { return a*15 + 13 + pad*3 }
 
 //go:noinline
 func H13(a int) int { return a ^ 16397 }
 
 //go:noinline
-func S14(a int) int { return a*16 + 14 }
+func S14(a int) int { return a*16 + 14 + pad*3 }
 
 //go:noinline
 func H14(a int) int { return a ^ 16398 }
 
 //go:noinline
-func S15(a int) int { return a*17 + 15 }
+func S15(a int) int { return a*17 + 15 + pad*3 }
 
 //go:noinline
 func H15(a int) int { return a ^ 16399 }
@@ -107,19 +108,19 @@ func S16(a int) int { return a*18 + 16 }
 func H16(a int) int { return a ^ 16400 }
 
 //go:noinline
-func S17(a int) int { return a*19 + 17 }
+func S17(a int) int { return a*19 + 17 + pad*3 }
 
 //go:noinline
 func H17(a int) int { return a ^ 16401 }
 
 //go:noinline
-func S18(a int) int { return a*20 + 18 }
+func S18(a int) int { return a*20 + 18 + pad*3 }
 
 //go:noinline
 func H18(a int) int { return a ^ 16402 }
 
 //go:noinline
-func S19(a int) int { return a*21 + 19 }
+func S19(a int) int { return a*21 + 19 + pad*3 }
 
 //go:noinline
 func H19(a int) int { return a ^ 16403 }
@@ -131,19 +132,19 @@ func S20(a int) int { return a*22 + 20 }
 func H20(a int) int { return a ^ 16404 }
 
 //go:noinline
-func S21(a int) int { return a*23 + 21 }
+func S21(a int) int { return a*23 + 21 + pad*3 }
 
 //go:noinline
 func H21(a int) int { return a ^ 16405 }
 
 //go:noinline
-func S22(a int) int { return a*24 + 22 }
+func S22(a int) int { return a*24 + 22 + pad*3 }
 
 //go:noinline
 func H22(a int) int { return a ^ 16406 }
 
 //go:noinline
-func S23(a int) int { return a*25 + 23 }
+func S23(a int) int { return a*25 + 23 + pad*3 }
 
 //go:noinline
 func H23(a int) int { return a ^ 16407 }
@@ -155,19 +156,19 @@ func S24(a int) int { return a*26 + 24 }
 func H24(a int) int { return a ^ 16408 }
 
 //go:noinline
-func S25(a int) int { return a*27 + 25 }
+func S25(a int) int { return a*27 + 25 + pad*3 }
 
 //go:noinline
 func H25(a int) int { return a ^ 16409 }
 
 //go:noinline
-func S26(a int) int { return a*28 + 26 }
+func S26(a int) int { return a*28 + 26 + pad*3 }
 
 //go:noinline
 func H26(a int) int { return a ^ 16410 }
 
 //go:noinline
-func S27(a int) int { return a*29 + 27 }
+func S27(a int) int { return a*29 + 27 + pad*3 }
 
 //go:noinline
 func H27(a int) int { return a ^ 16411 }
@@ -179,19 +180,19 @@ func S28(a int) int { return a*30 + 28 }
 func H28(a int) int { return a ^ 16412 }
 
 //go:noinline
-func S29(a int) int { return a*31 + 29 }
+func S29(a int) int { return a*31 + 29 + pad*3 }
 
 //go:noinline
 func H29(a int) int { return a ^ 16413 }
 
 //go:noinline
-func S30(a int) int { return a*32 + 30 }
+func S30(a int) int { return a*32 + 30 + pad*3 }
 
 //go:noinline
 func H30(a int) int { return a ^ 16414 }
 
 //go:noinline
-func S31(a int) int { return a*33 + 31 }
+func S31(a int) int { return a*33 + 31 + pad*3 }
 
 //go:noinline
 func H31(a int) int { return a ^ 16415 }
